@@ -1561,3 +1561,38 @@ Proof.
   eexists. eexists. split; [vm_compute; reflexivity|]. vm_compute. repeat split; auto.
   do 5 right. left. reflexivity.
 Qed.
+
+(** More examples *)
+(* one batch carrying the reply to callback "1" twice: the second copy is late when its turn
+   comes and is skipped; exactly one return, nothing queued *)
+Example late_reply_in_batch_nonvacuous :
+  exists s, reach cfg_push s /\ calls s = [([49]%N, 0)] /\
+    late_reply (fst (fst (filter_batch [reply_msg [49]%N [50]%N] s [] []))) (reply_msg [49]%N [51]%N) /\
+    exists s', read_cs (FMsg (InMsgs true [reply_msg [49]%N [50]%N; reply_msg [49]%N [51]%N])) s
+               = (s', [ORet 5 (ACbRes [50]%N)]) /\ inq s' = [] /\ calls s' = [].
+Proof.
+  destruct (run_state cfg_push (tr_callback ++ [LRelPush 5])) as [s|] eqn:E; [|discriminate E].
+  exists s. split; [eapply run_state_reach; eauto|].
+  vm_compute in E. injection E as <-. split; [reflexivity|]. split; [vm_compute; repeat split|].
+  eexists. vm_compute. repeat split.
+Qed.
+
+Example stopped_callbacks_cancelled_nonvacuous :
+  exists s, reach cfg_push s /\ running s = false /\ calls s = [([49]%N, 0)] /\
+    exists s' os, step s (LRelCbWatch 0) = Some (s', os) /\ os = [ORet 5 (ACbCtx WCancel)] /\ calls s' = [].
+Proof.
+  destruct (run_state cfg_push (tr_callback ++ [LRelPush 5; LCallStop 6; LRelStop 6])) as [s|] eqn:E; [|discriminate E].
+  exists s. split; [eapply run_state_reach; eauto|].
+  vm_compute in E. injection E as <-. split; [reflexivity|]. split; [reflexivity|].
+  eexists. eexists. vm_compute. repeat split.
+Qed.
+
+Example done_not_registered_nonvacuous :
+  exists s cb0, reach cfg_push s /\ nth_error (cbs s) 0 = Some cb0 /\ live cb0 = false /\
+    cb_slot cb0 = Some (CRes [50]%N) /\ calls s = [].
+Proof.
+  destruct (run_state cfg_push (tr_callback ++ [LRelPush 5; LFeed (FMsg (InMsgs false [reply_msg [49]%N [50]%N])); LRelRead]))
+    as [s|] eqn:E; [|discriminate E].
+  exists s. eexists. split; [eapply run_state_reach; eauto|].
+  vm_compute in E. injection E as <-. vm_compute. repeat split.
+Qed.
